@@ -1,6 +1,50 @@
-(* PLACEHOLDER - regenerated from /repo by /verif/extract on every run. *)
-From Coq Require Import NArith String.
+(* GENERATED from /repo by /verif/extract - do not edit; rewritten (only when the content changes) on every check. *)
+From Coq Require Import List NArith String.
+Import ListNotations.
+
 Definition c_small : nat := 5.
 Definition c_invalidChecksMult : nat := 10.
 Definition c_validActionTries : nat := 100.
 Definition c_exampleMaxTries : nat := 1000.
+
+(* persist.go *)
+Definition c_rapidVersion : string := "v0.4.8"%string.
+Definition c_failfileTmpPattern : string := ".rapid-failfile-tmp-*"%string.
+Definition c_persistDirMode : N := 509%N.
+(* fmt.Sprintf format of the file name in failFileName, and of the glob pattern in failFilePattern *)
+Definition c_failFileNameFmt : string := "%s-%s-%d.fail"%string.
+Definition c_failFilePatternFmt : string := "%s-*.fail"%string.
+(* literal leading components of filepath.Join in both functions; the sanitized test name follows *)
+Definition c_failDirParts : list string := ["testdata"%string; "rapid"%string].
+(* windowsReservedNames as lists of code points *)
+Definition c_windowsReservedNames : list (list N) := [
+  [67; 79; 78];
+  [80; 82; 78];
+  [65; 85; 88];
+  [78; 85; 76];
+  [67; 79; 77; 48];
+  [67; 79; 77; 49];
+  [67; 79; 77; 50];
+  [67; 79; 77; 51];
+  [67; 79; 77; 52];
+  [67; 79; 77; 53];
+  [67; 79; 77; 54];
+  [67; 79; 77; 55];
+  [67; 79; 77; 56];
+  [67; 79; 77; 57];
+  [67; 79; 77; 185];
+  [67; 79; 77; 178];
+  [67; 79; 77; 179];
+  [76; 80; 84; 48];
+  [76; 80; 84; 49];
+  [76; 80; 84; 50];
+  [76; 80; 84; 51];
+  [76; 80; 84; 52];
+  [76; 80; 84; 53];
+  [76; 80; 84; 54];
+  [76; 80; 84; 55];
+  [76; 80; 84; 56];
+  [76; 80; 84; 57];
+  [76; 80; 84; 185];
+  [76; 80; 84; 178];
+  [76; 80; 84; 179]]%N.
